@@ -1,8 +1,9 @@
 package chain
 
 import (
-	"math"
 	"fmt"
+	"github.com/MinterTeam/minter-go-node/rlp"
+	"math"
 	"math/big"
 	"math/rand"
 	"reflect"
@@ -164,6 +165,85 @@ func (OracleC15) Judge(w *World, b *BlockCtx, p *ProbeResult) {
 		}
 	}
 	w.Probe("c15_" + kind + "_checked")
+	// tight limits (counterfactual variant on a fresh node over the same pre-block state): the very
+	// same trade with its limit moved one unit beyond what was really obtained must not be accepted
+	// and short-change the sender; with the limit exactly at what was obtained it must go through.
+	if p.Variant != nil && (p.Height+int64(p.Index))%3 == 0 {
+		one := big.NewInt(1)
+		setLimit := func(lim *big.Int) []byte {
+			return Resign(m, w.Sc.Gen.NAcct, func(tx *transaction.Transaction) bool {
+				var data interface{}
+				switch d := m.Data.(type) {
+				case transaction.SellCoinData:
+					d.MinimumValueToBuy = lim
+					data = d
+				case transaction.SellSwapPoolDataV260:
+					d.MinimumValueToBuy = lim
+					data = d
+				case transaction.SellAllCoinData:
+					d.MinimumValueToBuy = lim
+					data = d
+				case transaction.SellAllSwapPoolDataV260:
+					d.MinimumValueToBuy = lim
+					data = d
+				case transaction.BuyCoinData:
+					d.MaximumValueToSell = lim
+					data = d
+				case transaction.BuySwapPoolDataV260:
+					d.MaximumValueToSell = lim
+					data = d
+				default:
+					return false
+				}
+				enc, err := rlp.EncodeToBytes(data)
+				if err != nil {
+					return false
+				}
+				tx.Data = enc
+				return true
+			})
+		}
+		got, beyond := credit, new(big.Int).Add(credit, one)
+		if kind == "buy" {
+			got, beyond = debit, new(big.Int).Sub(debit, one)
+		}
+		if alt := setLimit(beyond); alt != nil && beyond.Sign() >= 0 {
+			if vr := p.Variant(alt, true); vr != nil {
+				switch {
+				case vr.Err != nil:
+					w.Report("C07", "no-panic", "tight-limit:"+vr.Phase+"@"+vr.Err.Site, fmt.Sprintf("height %d %s with its limit moved to %s (one unit beyond the %s really obtained): %s panics: %v\n%s", p.Height, m.Kind, beyond, got, vr.Phase, vr.Err, trimStack(vr.Err.Stack)), p.Height)
+					return
+				case vr.Resp.Code == 0:
+					vret := new(big.Int)
+					if t, ok := new(big.Int).SetString(vr.Tags["tx.return"], 10); ok {
+						vret = t
+					}
+					if (kind == "buy" && vret.Cmp(beyond) > 0) || (kind != "buy" && vret.Cmp(beyond) < 0) {
+						fail("tight-limit-ignored", fmt.Sprintf("the same trade with its limit at %s (one unit beyond the %s really obtained) is accepted and reports %s", beyond, got, vret))
+						return
+					}
+				}
+				w.Probe("c15_tight_limit_beyond_checked")
+			}
+		}
+		if alt := setLimit(got); alt != nil {
+			if vr := p.Variant(alt, true); vr != nil {
+				if vr.Err != nil {
+					w.Report("C07", "no-panic", "tight-limit:"+vr.Phase+"@"+vr.Err.Site, fmt.Sprintf("height %d %s with its limit exactly at the %s really obtained: %s panics: %v\n%s", p.Height, m.Kind, got, vr.Phase, vr.Err, trimStack(vr.Err.Stack)), p.Height)
+					return
+				}
+				if vr.Resp.Code != 0 {
+					// a refusal is conservative (the pre-check replays the fee conversion slightly
+					// differently from the real one): C15 speaks about successful trades only
+					w.Probe("c15_tight_limit_exact_refused")
+				} else if vr.CheckCode != 0 && vr.CheckCode != 114 && vr.CheckCode != 113 {
+					w.Report("C06", "check-deliver", "tight-limit:"+m.Kind, fmt.Sprintf("height %d %s with its limit exactly at %s: CheckTx answers %d, DeliverTx on the same state 0", p.Height, m.Kind, got, vr.CheckCode), p.Height)
+					return
+				}
+				w.Probe("c15_tight_limit_exact_checked")
+			}
+		}
+	}
 	if gas != 0 {
 		w.Probe("c15_custom_commission_coin")
 	}
@@ -483,6 +563,36 @@ func (OracleC27) Judge(w *World, b *BlockCtx, p *ProbeResult) {
 	}
 	if tbl.Coin != 0 {
 		w.Probe("c27_custom_price_coin")
+		// the gas price multiplies the table price BEFORE the conversion through the pool: selling g*p
+		// of the price coin returns strictly less than g times what selling p returns (constant product).
+		// Judged against the same transaction at gas price 1 on a fresh node over the same state.
+		if g := int64(m.GasPrice); g >= 2 && inBase != nil && p.Variant != nil {
+			if alt := Resign(m, w.Sc.Gen.NAcct, func(tx *transaction.Transaction) bool { tx.GasPrice = 1; return true }); alt != nil {
+				if vr := p.Variant(alt, false); vr != nil && vr.Err == nil && vr.Resp.Code == 0 {
+					if in1, ok := new(big.Int).SetString(vr.Tags["tx.commission_in_base_coin"], 10); ok && in1.Sign() > 0 {
+						var rBase *big.Int
+						for _, pl := range p.Before.Pools {
+							if pl.Coin0 == 0 && pl.Coin1 == tbl.Coin {
+								rBase = bi(pl.Reserve0)
+							}
+						}
+						if rBase != nil && rBase.Cmp(in1) > 0 && !hasOrdersOn(p.Before, tbl.Coin) {
+							// constant product: f(x) = rB*a(x)/(1+a(x)) with a linear in x, so from f(p) alone
+							// (whatever the pool fee) f(g*p) = rB*g*a/(1+g*a), a = f(p)/(rB-f(p))
+							num := new(big.Int).Mul(new(big.Int).Mul(rBase, big.NewInt(g)), in1)
+							den := new(big.Int).Add(new(big.Int).Sub(rBase, in1), new(big.Int).Mul(big.NewInt(g), in1))
+							expect := num.Div(num, den)
+							tol := new(big.Int).Add(new(big.Int).Div(expect, big.NewInt(1e9)), big.NewInt(1000))
+							if diff := new(big.Int).Abs(new(big.Int).Sub(inBase, expect)); diff.Cmp(tol) > 0 {
+								w.Report("C27", "fee", "gas-price-after-conversion:"+m.Kind, fmt.Sprintf("height %d %s at gas price %d: base value %s; the same transaction at gas price 1 is worth %s; through a constant-product pool holding %s base coins %d times the table price is worth %s (gas price times the unit value would be %s)", p.Height, m.Kind, g, inBase, in1, rBase, g, expect, new(big.Int).Mul(in1, big.NewInt(g))), p.Height)
+								return
+							}
+							w.Probe("c27_gas_price_before_conversion_checked")
+						}
+					}
+				}
+			}
+		}
 	}
 	// the cheaper of the two routes: when the gas coin has both a bancor reserve and a pool with the
 	// base coin, the route taken must not be clearly dearer than the other one. Costs are bounded
@@ -619,9 +729,9 @@ func init() {
 			}
 			return sc
 		},
-		Monitors: func(sc *Scenario) []Monitor { return []Monitor{&MonProbe{Oracles: []Prober{OracleC15{}}}} },
-		Distinct: probeDistinct,
-		ExpectProbes: []string{"c15_sell_checked", "c15_buy_checked", "c15_sellall_checked", "c15_custom_commission_coin"},
+		Monitors:     func(sc *Scenario) []Monitor { return []Monitor{&MonProbe{Oracles: []Prober{OracleC15{}}}} },
+		Distinct:     probeDistinct,
+		ExpectProbes: []string{"c15_sell_checked", "c15_buy_checked", "c15_sellall_checked", "c15_custom_commission_coin", "c15_tight_limit_beyond_checked", "c15_tight_limit_exact_checked"},
 	})
 	register(&PropSpec{ID: "C21", Level: "exploration",
 		Rule: "reference model of issued checks (issuer, password key, nonce, due block, coin, value, gas coin, chain id); redemption attempts by right and wrong accounts, wrong password, proof for another address, after / at the due block, foreign chain id, wrong gas coin, twice in a block and in later blocks; oracle: accepted => every condition of the statement holds and the check was never redeemed before, and the per-transaction diff is exactly issuer -value -fee, redeemer +value; distinct non-trivial case = distinct (redeem result code) plus accepted/rejected classes",
@@ -687,8 +797,8 @@ func init() {
 			}
 			return sc
 		},
-		Monitors: func(sc *Scenario) []Monitor { return []Monitor{&MonProbe{Oracles: []Prober{OracleC27{}}}} },
-		Distinct: probeDistinct,
-		ExpectProbes: []string{"c27_price_checked", "c27_conservation_checked", "c27_exact_debit", "c27_custom_gas_coin", "c27_custom_price_coin", "c27_ticker_burn", "c27_cheaper_route_checked_bancor", "c27_cheaper_route_checked_pool"},
+		Monitors:     func(sc *Scenario) []Monitor { return []Monitor{&MonProbe{Oracles: []Prober{OracleC27{}}}} },
+		Distinct:     probeDistinct,
+		ExpectProbes: []string{"c27_price_checked", "c27_conservation_checked", "c27_exact_debit", "c27_custom_gas_coin", "c27_custom_price_coin", "c27_ticker_burn", "c27_cheaper_route_checked_bancor", "c27_cheaper_route_checked_pool", "c27_gas_price_before_conversion_checked"},
 	})
 }
